@@ -200,7 +200,7 @@ func genMesh(r *hx.Rand, threeD bool) Input {
 func gen(r *hx.Rand, tier string) []json.RawMessage {
 	n := 130
 	if tier == "thorough" {
-		n = 1500
+		n = 1000
 	}
 	var out []json.RawMessage
 	add := func(in Input) { out = append(out, hx.J(in)) }
